@@ -7,7 +7,9 @@
    in the old relative order; active_at (tbl s) k is what ansi_settings_at(k) reports. *)
 From AS Require Import Base.
 From AS.Model Require Import Table Ops.
-From AS.Proofs Require Import TableProofs SliceProofs PadProofs RemoveProofs GenFns.
+From AS Require Import Effects.
+From AS.Model Require Import Sgr Tokenizer Render Scrub Parse StrOps FormatSpec Exec.
+From AS.Proofs Require Import TableProofs SliceProofs PadProofs RemoveProofs GenFns ExecProofs InvariantProofs ReachableCorollaries.
 
 Theorem C07_text : forall s sel st en, base (remove_fmt s sel st en) = base s.
 Proof.
@@ -63,3 +65,25 @@ Theorem C07_bounds_are_code : forall (len : nat) (v : option Z) (d : nat),
   Z.of_nat (slice_idx len v d) = AS.Gen.Fns.gen_slice_val_to_idx (Z.of_nat len) v (Z.of_nat d).
 Proof. exact slice_idx_is_code. Qed.
 Print Assumptions C07_bounds_are_code.
+
+(* FOR EVERY REACHABLE VALUE, every selection and every range *)
+Theorem C07_reachable : forall p o sel st en, reachable_ok p -> In o (objs p) ->
+  let s := o_val o in
+  let len := length (base s) in
+  let i := slice_idx len st 0 in let j := slice_idx len en len in
+  let r := remove_fmt s sel st en in
+  base r = base s /\ rm_wf r /\
+  (range_empty len i j = true -> r = s) /\
+  (range_empty len i j = false ->
+     (forall k, k < i -> active_at (tbl r) k = active_at (tbl s) k)
+     /\ (forall k, i <= k < j -> active_at (tbl r) k = keep sel (active_at (tbl s) k))
+     /\ (forall k, j <= k -> active_at (tbl r) k = active_at (tbl s) k)).
+Proof.
+  intros p o sel st en Hr Hin s len i j r.
+  destruct (reachable_value p o Hr Hin) as (_ & _ & W & _).
+  split; [apply C07_text|].
+  destruct (range_empty len i j) eqn:E.
+  - assert (Er : r = s) by (apply remove_fmt_noop; exact E). split; [now rewrite Er|]. split; [auto | discriminate].
+  - destruct (remove_fmt_spec s sel st en W E) as (_ & A & B & C & D). split; [exact D|]. split; [discriminate|]. auto.
+Qed.
+Print Assumptions C07_reachable.
